@@ -552,6 +552,11 @@ func (e *Engine) evalD(c *config, v ssa.Value, d int) Abs {
 		}
 	case *ssa.BinOp:
 		switch v.Op {
+		case token.LSS, token.GTR:
+			// 0 < 0 and 0 > 0 are false
+			if e.evalD(c, v.X, d+1) == Zero && e.evalD(c, v.Y, d+1) == Zero {
+				return Zero
+			}
 		case token.REM, token.QUO, token.MUL, token.AND, token.SHL, token.SHR:
 			// 0 op k = 0
 			if e.evalD(c, v.X, d+1) == Zero {
@@ -609,6 +614,12 @@ func (e *Engine) evalD(c *config, v ssa.Value, d int) Abs {
 	case *ssa.ChangeType:
 		return e.evalD(c, v.X, d+1)
 	case *ssa.Call:
+		// len / cap of a nil slice, map or string known to be empty is 0
+		if b, ok := v.Call.Value.(*ssa.Builtin); ok && (b.Name() == "len" || b.Name() == "cap") && len(v.Call.Args) == 1 {
+			if e.evalD(c, v.Call.Args[0], d+1) == Zero {
+				return Zero
+			}
+		}
 		if f := v.Call.StaticCallee(); f != nil {
 			name := f.String()
 			if nonNilFuncs[name] {
